@@ -31,4 +31,17 @@ def EPt.junk {F : Type} (o : FOps F) : EPt F := ⟨o.zero, o.zero, o.zero, o.zer
 def EPt.isInfty {F : Type} (o : FOps F) (p : EPt F) : Bool :=
   o.isZero p.x && (if p.coord = .basic then o.isZero (o.sub p.y o.one) else o.isZero (o.sub p.y p.z))
 
+/-- ed_cmp (src/ed/relic_ed_cmp.c), true = RLC_EQ. Both operands not normalised: cross-multiplication
+    x1·z2 = x2·z1, y1·z2 = y2·z1 (and t1·z2 = t2·z1 in the build with extended coordinates, `ext`); otherwise both are
+    brought to affine form with the build's ed_norm (`norm p` = ed_norm(r, p) with r a copy of p) and compared. -/
+def edCmp {F : Type} (o : FOps F) (ext : Bool) (norm : EPt F → EPt F) (p q : EPt F) : Bool :=
+  let eq := fun (a b : F) => o.isZero (o.sub a b)
+  if p.coord ≠ .basic ∧ q.coord ≠ .basic then
+    (if ext then eq (o.mul p.t q.z) (o.mul q.t p.z) else true) &&
+      (eq (o.mul p.x q.z) (o.mul q.x p.z) && eq (o.mul p.y q.z) (o.mul q.y p.z))
+  else
+    let r := if p.coord ≠ .basic then norm p else p
+    let s := if q.coord ≠ .basic then norm q else q
+    eq r.x s.x && eq r.y s.y
+
 end Relic.Model.Formula
